@@ -686,7 +686,10 @@ func cmdC16(args []string) error {
 		} else if r.Outcome == "DeadlineExceeded" {
 			r.Outcome = "HANG"
 		}
-		if r.Outcome != "OK" {
+		// (a call cut short by its own deadline may have got as far as the pull's first transaction, the
+		// expiry heartbeat - the known finding pull-heartbeat of C09 - and its answer code depends on
+		// where the deadline struck: these requests are about the server staying alive)
+		if r.Outcome != "OK" && !strings.Contains(rq.Desc, "call deadline") {
 			post, err := pe.Dump(ctx)
 			if err != nil {
 				return err
